@@ -148,6 +148,42 @@ func Keys[K comparable, V any](m map[K]V, site string) []K {
 	return out
 }
 
+// SyncRange is sync.Map.Range with the same treatment: the entries are snapshotted, put in canonical key order
+// and visited in the order the explorer (or the process-mode setting) decides.
+func SyncRange(m *sync.Map, fn func(key, value any) bool, site string) {
+	if !on() && !procOrder() {
+		m.Range(fn)
+		return
+	}
+	type kv struct{ k, v any }
+	var es []kv
+	m.Range(func(k, v any) bool {
+		es = append(es, kv{k, v})
+		return true
+	})
+	if len(es) >= 2 {
+		sort.Slice(es, func(i, j int) bool { return fmt.Sprint(es[i].k) < fmt.Sprint(es[j].k) })
+		var perm []int
+		if on() {
+			perm = S.MapOrder(len(es), site)
+		} else {
+			perm = procPerm(len(es), site)
+		}
+		if len(perm) == len(es) {
+			out := make([]kv, len(es))
+			for i, p := range perm {
+				out[i] = es[p]
+			}
+			es = out
+		}
+	}
+	for _, e := range es {
+		if !fn(e.k, e.v) {
+			return
+		}
+	}
+}
+
 // Process mode (the real CLI as a child process, no scheduler): with VERIF_MAPORDER set, every map-range
 // site visits its keys in sorted order, except that the j-th call (counting calls with two or more keys, from
 // 1) uses the p-th permutation in lexicographic order for each "j:p" in the comma separated value.
